@@ -134,7 +134,14 @@ fn oracle(c: &ProgCase) -> Verdict {
         if !f.0.is_empty() { break; }
         let p = match m.plan(op) { Some(p) => p, None => continue };
         let res = match m.exec_new(&p) { Ok(r) => r, Err(_) => break }; // panics on well-typed operands are C02's concern
-        if m.check_meta(&p, &res).is_err() { break; }
+        if m.check_meta(&p, &res).is_err() {
+            // inconsistent metadata is C02's subject; what C07 promises is still checked on such a result: a ciphertext whose
+            // reported budget is positive has to decrypt
+            if let Ok(cf) = to_coeff(&w, &res) { if let Ok(b) = catch(|| w.decryptor.invariant_noise_budget(&cf)) { if b >= 1 {
+                if let Err(pn) = m.decrypt_padded(&res) { f.add("C07/decrypt-exact", format!("{scheme} step {si} {:?}: reported budget {b} but decrypt panicked: {pn}", p.kind)); }
+            } } }
+            break;
+        }
         let b = match probe(&m, &res, &format!("step {si} {:?}", p.kind), &mut f, None) { Some(b) => b, None => break };
         let ba = budgets[p.a];
         match p.kind {
